@@ -151,6 +151,8 @@ def eq_test(t):
             return a, b
         if const_term(a) and not const_term(b):
             return b, a
+    if isinstance(t, tuple) and len(t) == 3 and t[0] == 'mcall' and isinstance(t[1], str) and t[1].startswith('std::') and t[1].endswith('::empty'):
+        return ('mcall', t[1][:-len('empty')] + 'size', t[2]), ('num', 0)          # `c.empty()` is the test `c.size() == 0`
     return None
 
 
@@ -164,7 +166,8 @@ def label_term(l):
 
 def eq_term(e, k):
     a, b = sorted((e, k), key=repr)
-    return ('==', a, b)
+    from .expr import _emptiness
+    return _emptiness(('==', a, b))         # `c.size() == 0` is spelled `c.empty()` everywhere
 
 
 def value_literals(conds):
@@ -489,6 +492,8 @@ def enum_paths(stmt, limit=4000):
             seq.append((kind, x))
         return Path(conds, stmts, p.end, p.endnode, seq=seq)
 
+    split_depth = [0]
+
     def join(p, q):
         return Path(p.conds + q.conds, p.stmts + q.stmts, q.end, q.endnode, seq=p.seq + q.seq)
 
@@ -581,11 +586,67 @@ def enum_paths(stmt, limit=4000):
             forever = cond is None and kind == 'ForStmt' or (cond is not None and cond.get('k') == 'CXXBoolLiteralExpr' and cond.get('val'))
             if forever and not _has_own_break(s):
                 return [Path((), (s,), 'loop', s)]      # never falls through: left only by return / throw inside (opaque here)
+        if kind not in ('WhileStmt', 'ForStmt', 'DoStmt', 'CXXForRangeStmt', 'CXXTryStmt', 'GotoStmt', 'NullStmt', 'LambdaExpr') and not s.get('as') and not s.get('slots'):
+            # a plain statement that always evaluates a selection `c ? a : b` is `if (c) S[a] else S[b]` (also the initialiser of a declaration)
+            x = None
+            if kind == 'DeclStmt':
+                ds = [d for d in (s.get('c') or ()) if d.get('k') == 'VarDecl']
+                if len(ds) == 1 and len(s.get('c') or ()) == 1 and isinstance(ds[0].get('init'), dict) and not ds[0].get('bindings'):
+                    x = _first_conditional(ds[0]['init'])
+            else:
+                x = _first_conditional(s)
+            if isinstance(x, dict) and len(x.get('c') or ()) == 3 and split_depth[0] < 6:
+                out = []
+                split_depth[0] += 1
+                try:
+                    for atoms, outcome in decisions(x['c'][0]):
+                        arm = x['c'][1] if outcome else x['c'][2]
+                        if kind == 'DeclStmt':
+                            d2 = dict(ds[0])
+                            d2['init'] = _subst_node(ds[0]['init'], x, arm)
+                            s2 = dict(s)
+                            s2['c'] = [d2]
+                        else:
+                            s2 = _subst_node(s, x, arm)
+                        cs = tuple(('if', n, pol) for n, pol in atoms)
+                        for q in paths(s2):
+                            out.append(Path(cs + q.conds, q.stmts, q.end, q.endnode, seq=tuple(('c', c) for c in cs) + q.seq))
+                finally:
+                    split_depth[0] -= 1
+                return out
         return [Path((), (s,), 'fall', None)]
 
     if not flags:
         return paths(stmt)
     return [q for q in (resolve(p) for p in paths(stmt)) if q is not None]
+
+
+def path_values(p, term):
+    """{local name: canonical term} of what the statements of one path leave in its locals: initialisers of declarations and plain assignments
+    `x = E;` (the last one on the path wins).  A local that is given its value in the arms of an if is, on each path, that value."""
+    out = {}
+    for st in p.stmts:
+        if st.get('as'):
+            continue
+        if st.get('k') == 'DeclStmt':
+            for d in st.get('c') or ():
+                if d.get('k') == 'VarDecl' and isinstance(d.get('init'), dict) and d.get('name'):
+                    out[d['name']] = term(d['init'])
+        elif st.get('k') in ('BinaryOperator', 'CXXOperatorCallExpr') and st.get('op') == '=':
+            c = st.get('c') or []
+            lhs = c[0] if st['k'] == 'BinaryOperator' else (c[1] if len(c) > 2 else None)
+            rhs = c[1] if st['k'] == 'BinaryOperator' else (c[2] if len(c) > 2 else None)
+            if isinstance(lhs, dict) and lhs.get('k') == 'DeclRefExpr' and lhs.get('local') and rhs is not None:
+                out[lhs.get('ref')] = term(rhs)
+    return out
+
+
+def resolve_values(t, vals, depth=0):
+    if isinstance(t, str) and t in vals and depth < 4:
+        return resolve_values(vals[t], vals, depth + 1)
+    if isinstance(t, tuple):
+        return tuple(resolve_values(x, vals, depth) for x in t)
+    return t
 
 
 def region_of(f, n):
